@@ -152,7 +152,7 @@ def gen_invalid(rng, v, cfg, serial, kinds_ops):
     if o == "add_comp":
         c = rng.choice(["unknown_parent", "parent_is_load", "child_is_source", "second_mux", "list_for_non_mux",
                         "dup_in_list", "dup_name", "name_is_rail", "dup_rail", "rail_is_name", "rail_eq_name",
-                        "empty_list", "alias_list"])
+                        "empty_list", "alias_list", "load_in_list"])
         kind = rng.choice(H.LOADS + H.NONLOAD)
         par = v.addr(rng, rng.choice(nonload)) if nonload else some
         if c == "empty_list":
@@ -165,9 +165,20 @@ def gen_invalid(rng, v, cfg, serial, kinds_ops):
                 return {"op": o, "parent": pl, "comp": new_comp("pmux", fresh, serial), "group": g, "rail": ""}, c
         if c == "unknown_parent":
             p = unknown if rng.random() < 0.7 else [par, unknown]
+            if isinstance(p, list):
+                if len(nonload) > 1 and rng.random() < 0.5:
+                    p.append(rng.choice([x for x in nonload if x != par] or [par]))
+                rng.shuffle(p)                      # the offending entry at ANY position of the list
+                p = list(dict.fromkeys(p))
             return {"op": o, "parent": p, "comp": new_comp("pmux" if isinstance(p, list) else kind, fresh, serial),
                     "group": g, "rail": ""}, c
         loads = [x for x in v.names if v.ctype[x] == "LOAD"]
+        if c == "load_in_list" and loads and nonload and not v.muxes:
+            pl = [rng.choice(loads), par] + ([rng.choice(nonload)] if rng.random() < 0.4 else [])
+            rng.shuffle(pl)
+            pl = list(dict.fromkeys(pl))
+            if len(pl) >= 2:
+                return {"op": o, "parent": pl, "comp": new_comp("pmux", fresh, serial), "group": g, "rail": ""}, c
         if c == "parent_is_load" and loads:
             return {"op": o, "parent": rng.choice(loads), "comp": new_comp(kind, fresh, serial), "group": g, "rail": ""}, c
         if c == "child_is_source":
